@@ -33,10 +33,12 @@ acc C06-duplicated-sequence-remove-then-add C06 interchangeable,time,credit,lyri
 acc C07-note-ties-then-grace C07 note '*' "note: tie, tie, grace, tie: after the intelligent-choice re-attachment dropped a tie from the matcher, a third tie is accepted although the schema allows two (thorough tier only)"
 acc C06-note-ties-then-grace C06 note '*' "note: add(tie), add(tie), add(grace): the intelligent-choice re-attachment drops one tie from the ordered view and the output"
 acc C10-failed-replace-readds-old-child C10 '*' '*' "a refused call that went through remove-and-re-add or duplication (different-name replace_child, wrong forward) leaves matcher flags that change later acceptance"
+acc C10-failed-call-after-removal-in-repeated-choice C10 articulations,dynamics,encoding,listen,ornaments,technical '*' "types whose content is one unbounded choice: add x, add x, remove the first, then ANY refused call (add_child(None), a foreign element, a wrong forward index): what the removal of the remaining child leaves behind differs from the state before the refused call - the refused call walks the container and sets the matcher flags that remove() does not reset (same root cause as the C16 finding; seen through the removal probes of the fingerprint, thorough tier)"
 acc C10-metronome-refused-serialisation C10 metronome '*' "metronome: a refused to_string changes the later verdict / acceptance"
 acc C11-removal-leaves-matcher-flags C11 '*' '*' "remove(): force_validate / chosen_child / duplicated containers are not reset: an optional child added and removed is reported as required, alternatives stay blocked, serialisation verdict differs from a rebuilt twin"
 acc C12-first-fit-matcher-rejections C12 '*' '*' "children with a unique valid arrangement (or still compatible with the children held) are refused or misordered in types with repeated names / repeated groups: credit, harmony, key, lyric, metronome, note, time, interchangeable, part-list, score-part, sound, ornaments, direction-type"
 acc C14-forward-placement-lost C14 '*' '*' "deepcopy re-adds the children without their forward placement: copies of elements built with add_child(forward=k) serialise differently or refuse"
+acc C14-copy-rebuild-reorders-part-list C14 part-list 'copy-serialises-differently' "part-list: the copy is a rebuild through the first-fit matcher: after a removal inside the (part-group | score-part) repetition the original serialises score-part, part-group, ... while its copy comes out re-ordered (the C02 part-list root cause, met by the deep-alphabet exploration)"
 acc C15-name-attribute-shadowed C15 bookmark,lyric,lyric-font,lyric-language,miscellaneous-field '*' "the 'name' attribute cannot be read or set by dot syntax: e.name is the element name property"
 acc C15-xlink-elements C15 link,part-link,opus '*' "link / part-link / opus: any attribute read or xml_* read-back raises AttributeError from the undeclared xlink attribute objects"
 acc C16-lyric-intelligent-choice-side-effect C16 lyric '*' "lyric: a successful to_string(intelligent_choice=True) re-attaches children and changes later results"
